@@ -147,7 +147,7 @@ def check_relation(ctx, c):
         b = _est(arg(pos), f * fac, edges, **kw)
         ctx.event("estimator_calls")
         # a^2 scaling, exact for powers of two (Matheron: squares; Cressie: sqrt(|a|)^4)
-        exact = est == "matheron" or fac in (4.0, 0.25, 16.0)
+        exact = est == "matheron"  # Cressie takes pow(., 4) in libm: homogeneous only to an ulp, even for powers of two
         va, vb = np.asarray(b[1]), np.asarray(a[1]) * fac * fac
         ctx.event("related_pairs")
         if not (np.array_equal(va, vb) if exact else np.all(np.abs(va - vb) <= 1e-13 * np.abs(vb))):
